@@ -244,6 +244,8 @@ class DocOpts:
         self.p_unused_style = 0.0
         self.force_typename = False
         self.p_sub_repeat = 0.15
+        self.p_repeat_outer = 0.3
+        self.p_hetero = 0.5
         self.__dict__.update(kw)
 
 
@@ -375,6 +377,8 @@ class DocGen:
             tn = named_of(f.type)
             if self.s.is_composite(tn):
                 sel.selset = self.gen_selset(tn, depth + 1, scope)
+                if "L" in str(f.type) and self.s.kind(tn) == "INTERFACE" and rng.random() < self.o.p_hetero and depth + 1 < self.o.max_depth:
+                    self._hetero_merge(sel.selset, tn, depth + 1, scope)
         key = fname
         if rng.random() < self.o.p_alias:
             key = rng.choice(ALIASES)
@@ -409,11 +413,17 @@ class DocGen:
             for _, x in v[1]:
                 self._note_vars(x, scope)
 
-    def gen_selset(self, parent, depth, scope):
+    def gen_selset(self, parent, depth, scope, outer=()):
+        """outer: field selections of the enclosing selection set(s) that an inline / named fragment body may
+        select AGAIN (same response key, same arguments) so that sub-selections merge across type conditions."""
         rng, o = self.rng, self.o
         out = []
         n = rng.randint(1, 4) if depth < o.max_depth else rng.randint(1, 2)
         leafy = depth >= o.max_depth or self.budget <= 0
+        if outer and not leafy and rng.random() < o.p_repeat_outer:
+            rep = self._repeatable(outer, parent)
+            if rep:
+                out.append(self.clone_field(rng.choice(rep), parent, depth, scope))
         for _ in range(n):
             r = rng.random()
             if leafy:
@@ -425,7 +435,8 @@ class DocGen:
             if r < o.p_inline:
                 tc = rng.choice(self.overlapping(parent) + [None])
                 inner = tc or parent
-                out.append(InlineFrag(tc, self.gen_skipinclude(scope), self.gen_selset(inner, depth + 1, scope)))
+                out.append(InlineFrag(tc, self.gen_skipinclude(scope), self.gen_selset(
+                    inner, depth + 1, scope, outer=[x for x in out if x.kind == "field"] + list(outer))))
             elif r < o.p_inline + o.p_spread:
                 out.append(self.gen_spread(parent, depth, scope))
             elif r < o.p_inline + o.p_spread + o.p_repeat and any(x.kind == "field" for x in out):
@@ -434,13 +445,56 @@ class DocGen:
                     out.append(FieldSel("__typename", prev.alias))
                 else:
                     out.append(self.clone_field(prev, parent, depth, scope))
+            elif outer and rng.random() < o.p_repeat_outer and self._repeatable(outer, parent):
+                prev = rng.choice(self._repeatable(outer, parent))
+                out.append(self.clone_field(prev, parent, depth, scope))
             else:
                 out.append(self.gen_field(parent, depth, scope))
+        if not leafy:
+            # ... and the other way round: a field first selected under a type condition is selected again outside it
+            for x in list(out):
+                if x.kind == "inline" and x.typecond and rng.random() < o.p_repeat_outer:
+                    rep = self._repeatable([y for y in x.selset if y.kind == "field"], parent)
+                    if rep:
+                        out.append(self.clone_field(rng.choice(rep), parent, depth, scope))
         if o.force_typename and not any(x.kind == "field" and x.name == "__typename" and not x.alias
                                         and not x.directives for x in out):
             self.keys["__typename"] = ("__typename", "", "String!")
             out.insert(rng.randrange(len(out) + 1), FieldSel("__typename"))
         return out
+
+    def _hetero_merge(self, selset, iface, depth, scope):
+        """List of interface values: select a composite field for every item AND again under a type condition that
+        only some items satisfy, so that the merged field nodes differ from item to item."""
+        rng = self.rng
+        impls = sorted(self.s.possible_types(iface))
+        comp = [g for g in self.s.types[iface].fields.values() if self.s.is_composite(named_of(g.type))]
+        if len(impls) < 2 or not comp:
+            return
+        g = rng.choice(comp)
+        outer = self.gen_field(iface, depth, scope, force=g.name, no_directives=True)
+        impl = rng.choice(impls)
+        if not self._repeatable([outer], impl):
+            selset.append(outer)     # keep it: fragments created while generating it must stay used
+            return
+        inner = self.clone_field(outer, impl, depth + 1, scope, no_directives=True)
+        parts = [outer, InlineFrag(impl, [], [inner])]
+        rng.shuffle(parts)
+        selset.extend(parts)
+
+    def _repeatable(self, outer, parent):
+        """Outer field selections that mean the very same field (name, arguments, type) on `parent`."""
+        fields = self.s.fields_of(parent)
+        ok = []
+        for x in outer:
+            f = fields.get(x.name)
+            if f is None or x.name.startswith("__"):
+                continue
+            sig = (x.name, ",".join(sorted("%s:%s" % (n, print_value(v)) for n, v in x.args)), tstr(f.type))
+            if self.keys.get(x.key) == sig and all(f.arg(n) is not None for n, _ in x.args) \
+                    and not any(is_nn(a.type) and a.default is NODEF and a.name not in dict(x.args) for a in f.args):
+                ok.append(x)
+        return ok
 
     def gen_spread(self, parent, depth, scope):
         rng = self.rng
